@@ -1,7 +1,8 @@
 CHECKS["C10"] = dict(
     engine="E3",
     overlay_dirs=SIM, overlay=SIM_ACCESS,
-    units=[unit("c10", "./verifx/sim", "^TestC10", shards=(16, 16), timeout=(900, 3400))],
+    units=[unit("c10", "./verifx/sim", "^TestC10", shards=(16, 16), timeout=(900, 3400)),
+           unit("c10fuzz", "./verifx/sim", "^$", tiers=("thorough",), fuzz="FuzzC10Wire", fuzztime={"quick": 20, "thorough": 240}, fuzzworkers=16, timeout=(600, 900))],
     rule=("a live replica (all real handlers on its event loop; chained/simple/fast; ECDSA/EdDSA/BLS; cache on/off) is first "
           "driven 0..12 FIFO generations into a reachable state, then 1..5 rapid-generated wire messages are handed to the "
           "REAL service handlers (Propose, Vote, NewView, Timeout, RequestBlock; via an overlay accessor) with peer context "
@@ -14,7 +15,9 @@ CHECKS["C10"] = dict(
           "Oracle: (1) no panic anywhere on the path (recovered, fingerprinted by rpc and first repository frame); (2) for "
           "messages in which nothing can verify (no valid signature, no genesis / view-0 shortcut) the snapshot (view, high QC, "
           "high TC, committed block, lock, last voted view, commit count) is unchanged. Non-trivial = the message reaches "
-          "beyond the first handler line; distinct = the message sequence."),
+          "beyond the first handler line; distinct = the message sequence. Thorough tier adds native coverage-guided fuzzing "
+          "(FuzzC10Wire): arbitrary bytes decoded as Proposal / PartialCert / SyncInfo / TimeoutMsg / BlockHash, seeded with the "
+          "marshalled honest messages of a short run, through the same handlers; oracle: no panic, state never moves backwards."),
     assumptions=["the gorums transport and protobuf decoding are not exercised here (protobuf guarantees well-typed messages; byte-level decode fuzzing is part of C12)",
                  "Kauri's contribution handler is exercised by the C09 tree unit (nil / garbage / foreign contributions)"],
 )
